@@ -12,7 +12,7 @@ def run(ctx):
     ctx.add_tlc(res)
     cases = ctx.path("cases.ndjson")
     vlib.write_ndjson(cases, res.replay)
-    out, tracep = common.harness_json(ctx, "c20", {"cases_file": cases, "seed": ctx.seed, "random": 2000 if q else 200000})
+    out, tracep = common.harness_json(ctx, "c20", {"cases_file": cases, "seed": ctx.seed, "random": 2000 if q else 4000000})
     for b in out["bad"]:
         ctx.violation({"rule": b["rule"], "why": b["why"][:70], "k": b["k"], "p": b.get("p")}, {"k": b["k"]},
                       "%s: %s (value built by %s%s)" % (b["rule"], b["why"], b["k"], ", primitive %s" % b["p"] if b.get("p") else ""))
